@@ -4,6 +4,7 @@ import (
 	"context"
 	"errors"
 	"fmt"
+	"github.com/attestantio/dirk/services/ruler"
 
 	"github.com/attestantio/dirk/rules"
 	"github.com/attestantio/dirk/services/checker"
@@ -148,4 +149,43 @@ func (r *FaultyRules) OnSignBeaconAttestations(ctx context.Context, md []*rules.
 		return res
 	}
 	return r.Service.OnSignBeaconAttestations(ctx, md, req)
+}
+
+// FaultyRuler wraps the ruler service: the answer the signer gets may be indeterminate or failed for the whole request or
+// indeterminate at one position. The list always has one result per entry (the ruler is Dirk's own code and guarantees
+// that; a ruler that returns a list of another length is not a behaviour of any dependency).
+type FaultyRuler struct {
+	ruler.Service
+	Env Env
+}
+
+// RunRules implements ruler.Service.
+func (r *FaultyRuler) RunRules(ctx context.Context, credentials *checker.Credentials, action string, data []*ruler.RulesData) []rules.Result {
+	last := fmt.Sprintf("pos:%d", len(data)-1)
+	all := func(v rules.Result) []rules.Result {
+		l := make([]rules.Result, len(data))
+		for i := range l {
+			l[i] = v
+		}
+		return l
+	}
+	switch r.Env.Choose("ruler.RunRules", 5, "*", "*", last, "pos:0") {
+	case 1:
+		return all(rules.UNKNOWN)
+	case 2:
+		return all(rules.FAILED)
+	case 3:
+		res := r.Service.RunRules(ctx, credentials, action, data)
+		if len(res) > 0 {
+			res[len(res)-1] = rules.UNKNOWN
+		}
+		return res
+	case 4:
+		res := r.Service.RunRules(ctx, credentials, action, data)
+		if len(res) > 0 {
+			res[0] = rules.UNKNOWN
+		}
+		return res
+	}
+	return r.Service.RunRules(ctx, credentials, action, data)
 }
